@@ -33,7 +33,9 @@ META = {
                   'canonicalisation. reflect/runtime panics are modelled as classes. replaceFunc failure branches (function or '
                   'placeholder smaller than the jump, already patched) are in the model and the theorems but cannot be provoked '
                   'through the public API on amd64, so correspondence does not exercise them. By-name patches have no target type: no '
-                  'signature check exists or is claimed there.',
+                  'signature check exists or is claimed there. Known deviations on the unchanged code (KNOWN_FINDINGS): method values as targets are '
+                  'unchecked (C13-K1), string/reflect panics carry no typed cause (C13-K2), the walk stops at *IllegalParam (C13-K3), '
+                  'empty first Returns() (F27-c13) and first When() (C04-K1) are accepted.',
 }
 
 T = Z.TYPES
@@ -42,7 +44,8 @@ for _k, _v in T.items():
     if _k not in ('ictx', 'prc'):
         BY_SIZE.setdefault(_v[1], []).append(_k)
 SWAP = {'int': 'uint', 'uint': 'int', 'i32': 'u32', 'u32': 'i32', 'i64': 'int', 's16': 's16b', 's16b': 's16', 'pi': 'ps', 'ps': 'pi'}
-NILABLE = {'iface', 'ptr', 'slice', 'map', 'array', 'chan'}
+NILABLE = {'iface', 'ptr', 'slice', 'map', 'array', 'chan', 'func'}     # value.go:60-61
+ALLF = dict(list(Z.FUNCS.items()) + list(Z.CLOSURES.items()))
 lst = Z.lst
 INAMES = ','.join(sorted(Z.IMETHODS))
 
@@ -80,7 +83,7 @@ class Gen:
 
     # ---- func targets
     def func_head(self, name, pre=0, origin='none'):
-        ins, outs, var = Z.FUNCS[name]
+        ins, outs, var = ALLF[name]
         return f'func {name} {lst(ins)} {lst(outs)} {int(var)} {pre} {origin}'
 
     def cb_mistakes(self, ins, outs, var, positions_all=True):
@@ -143,8 +146,9 @@ class Gen:
         args = [val_ok(t) for t in ins]
         if var:
             fixed = ins[:-1]
-            for k in range(1, len(ins)):                     # checkParams demands NumIn arguments even for variadics
-                out.append((['int' if i >= len(fixed) else fixed[i] for i in range(k)], 'when-few'))
+            for k in range(1, len(fixed)):                   # fewer than the FIXED parameters (when.go:80-90)
+                out.append((fixed[:k], 'when-few'))
+            out.append((fixed + ['int'], 'accept'))
             for p, t in enumerate(fixed):
                 b = val_bad_size(t, rng)
                 if b:
@@ -164,18 +168,19 @@ class Gen:
 
     def gen_funcs(self):
         rng = self.rng
-        for name, (ins, outs, var) in Z.FUNCS.items():
+        for name, (ins, outs, var) in ALLF.items():
             h = self.func_head(name)
             self.add(f'{h} apply {lst(ins)} {lst(outs)} {int(var)}', 'accept')
             self.add(f'{self.func_head(name, 1)} apply {lst(ins)} {lst(outs)} {int(var)}', 'accept')
             self.add(f'{self.func_head(name, 0, "ok")} apply {lst(ins)} {lst(outs)} {int(var)}', 'accept')
             self.add(f'{self.func_head(name, 0, "small")} apply {lst(ins)} {lst(outs)} {int(var)}', 'accept')
+            self.add(f'{self.func_head(name, 0, "fnval")} apply {lst(ins)} {lst(outs)} {int(var)}', 'accept')
             for p, t in enumerate(ins):
                 if t in SWAP and not (var and p == len(ins) - 1):
                     self.add(f'{h} apply {lst(ins[:p] + [SWAP[t]] + ins[p + 1:])} {lst(outs)} {int(var)}', 'accept')
             for (ci, co, cv, tag) in self.cb_mistakes(ins, outs, var):
                 pre = 1 if rng.chance(1, 4) else 0
-                org = rng.choice(['none', 'none', 'none', 'ok'])
+                org = rng.choice(['none', 'none', 'none', 'ok', 'fnval'])
                 self.add(f'{self.func_head(name, pre, org)} apply {lst(ci)} {lst(co)} {int(bool(cv))}', tag)
             for tok in ('int', 'str', 'nil', 'pi', 's16', 'sl', 'err'):
                 self.add(f'{self.func_head(name, 1 if rng.chance(1, 4) else 0)} applyval {tok}', 'cb-nonfunc')
@@ -367,6 +372,11 @@ class Gen:
             """later When/In/Matches on a variadic target: fewer conditions than FIXED parameters must be rejected"""
             fixed, okr = ins[:-1], lst(outs)
             first = f'return {okr}'
+            # a FIRST When may leave the variadic slot empty (f(1) is a legal call); fewer than the fixed parameters is the mistake
+            self.add(f'{head} when {lst(fixed)} ; return {okr}', 'accept')
+            self.add(f'{head} when {lst(fixed + ["int"])} ; return {okr}', 'accept')
+            for k in range(1, len(fixed)):
+                self.add(f'{head} when {lst(fixed[:k])}', 'when-few')
             for via in ('', 'again ; '):
                 for k in range(len(fixed)):
                     few = lst(fixed[:k])
@@ -501,6 +511,91 @@ class Gen:
                 if rng.chance(1, 2):
                     self.add(f'{head} {bad_as} ; {call} ; {good_as} ; return {lst(mouts)}', 'rt:A,R,A,A')
 
+    # ---- round-5 lanes: method values as targets, closures, Func(&fnVar), empty Returns(), first When(), bare In groups,
+    #      Interface(&structHoldingTheVariable), ExportFunc(..).As(..).Apply/Return, debug mode
+    def gen_round5(self):
+        rng = self.rng
+        for name in Z.MVALS:
+            ins, outs, var = Z.METHODS[name]
+            full = ['prc'] + ins
+            h = f'fm {name} {lst(ins)} {lst(outs)} {int(var)}'
+            self.add(f'{h} apply {lst(full)} {lst(outs)} {int(var)}', 'accept')
+            for (ci, co, cv, tag) in self.cb_mistakes(full, outs, var):
+                self.add(f'{h} apply {lst(ci)} {lst(co)} {int(bool(cv))}', 'fm:' + tag)
+            self.add(f'{h} apply {lst(ins)} {lst(outs)} {int(var)}', 'fm:cb-count-in')       # the method value's own type: receiver missing
+            for tok in ('int', 'nil', 's16', 'bool'):
+                self.add(f'{h} applyval {tok}', 'cb-nonfunc')
+            for tok in ('pi', 'sl', 'map', 'str'):
+                self.add(f'{h} applyval {tok}', 'fm:cb-nonfunc')
+            for (vals, tag) in self.ret_cases(outs):
+                self.add(f'{h} return {lst(vals)}', tag)
+            for (args, tag) in self.when_cases(ins, var):
+                if tag != 'accept':
+                    self.add(f'{h} when {lst(args)} return {lst(outs)}', tag)
+        # Func(&fnVar): proxy.Func dereferences, so Apply is a normal (checked) mock of the function the variable holds
+        self.add('nonfunc pfn apply int int 0', 'accept')
+        for (ci, co, cv, tag) in self.cb_mistakes(['int'], ['int'], False):
+            self.add(f'nonfunc pfn apply {lst(ci)} {lst(co)} {int(bool(cv))}', tag)
+        self.add('nonfunc pfn return int', 'target-nonfunc')
+        self.add('nonfunc pfn when int return int', 'target-nonfunc')
+        # an empty first Returns() and a first When() without conditions
+        for name, (ins, outs, var) in ALLF.items():
+            h = f'seqf {name} {lst(ins)} {lst(outs)} {int(var)} {rng.below(2)}'
+            self.add(f'{h} returns ()', 'returns-empty' if outs else 'accept')
+            if outs:
+                self.add(f'{h} return {lst(outs)} ; returns ()', 'accept')          # on the handle an empty Returns adds nothing
+            if ins and outs:
+                self.add(f'{h} when - ; return {lst(outs)}', 'when-none')
+        for name, (ins0, outs, var) in Z.METHODS.items():
+            hm = f'seqm {name} {lst(["prc"] + ins0)} {lst(outs)} {int(var)}'
+            self.add(f'{hm} returns ()', 'returns-empty' if outs else 'accept')
+            if ins0 and outs:
+                self.add(f'{hm} when - ; return {lst(outs)}', 'when-none')
+        for name, (mins, mouts) in Z.IMETHODS.items():
+            hi = f'seqi {name} {INAMES} {lst(mins)} {lst(mouts)} {lst(["ictx"] + mins)} {lst(mouts)}'
+            self.add(f'{hi} returns ()', 'returns-empty' if mouts else 'accept')
+            if mins and mouts:
+                self.add(f'{hi} when - ; return {lst(mouts)}', 'when-none')
+        # In(...) with BARE arguments on a variadic target with ONE fixed parameter (a bare argument is one condition): from the
+        # variadic index on, a bare SLICE is expanded element-wise (expr.go:75), every other bare argument is one condition
+        for (head, ins, outs) in [(f'seqf {n} {lst(i)} {lst(o)} 1 0', i, o) for n, (i, o, v) in Z.FUNCS.items() if v and o and len(i) == 2] + \
+                                 [(f'seqm {n} {lst(["prc"] + i)} {lst(o)} 1', i, o) for n, (i, o, v) in Z.METHODS.items() if v and o and len(i) == 2]:
+            first = f'return {lst(outs)}'
+            for a0 in (ins[0], 'any()'):
+                self.add(f'{head} {first} ; in {a0}|int', 'accept')          # expr.go:75: only slices/arrays are expanded
+                self.add(f'{head} {first} ; in {a0}|{a0}|int', 'accept')
+                self.add(f'{head} {first} ; in {a0}|sl', 'accept')
+                self.add(f'{head} {first} ; in {a0}', 'accept')
+                self.add(f'{head} {first} ; again ; in {a0}|bool', 'seq-in-size:0')
+        # Interface(&struct whose first field is the variable): same address, not an interface
+        for name, (mins, mouts) in Z.IMETHODS.items():
+            full = ['ictx'] + mins
+            for var in ('', '@n'):
+                hi = f'rti {name}{var} {INAMES} {lst(mins)} {lst(mouts)} {lst(full)} {lst(mouts)}'
+                first = f'return {lst(mouts)}' if mouts else f'apply {lst(full)} - 0'
+                if var == '@n':
+                    self.add(f'{hi} {first} ; holder', 'rt:A,R')
+                    self.add(f'{hi} holder ; {first}', 'rt:R,A')
+                else:
+                    self.add(f'{hi} {first} ; holder ; apply {lst(full)} {lst(mouts)} 0', 'rt:A,A,R')
+                    self.add(f'{hi} {first} ; holder ; {first}', 'rt:A,A,R')
+                    self.add(f'{hi} holder ; apply {lst(full)} {lst(mouts)} 0 ; apply {lst(full)} {lst(mouts)} 0', 'rt:A,R,R')
+                    if mouts:
+                        self.add(f'{hi} {first} ; holder ; returns {lst(mouts)}|{lst(mouts)}', 'rt:A,A,R')
+                        if mins:
+                            self.add(f'{hi} {first} ; holder ; when {lst(mins)}', 'rt:A,A,R')
+        # ExportFunc(known).As(fn) then Apply / Return: checked against fn's type like any function
+        self.add('export func known asapply - - 0 - -', 'accept')
+        for (ci, co, cv, tag) in self.cb_mistakes([], [], False) + [(['int'], [], 0, 'cb-count-in'), ([], ['int'], 0, 'cb-count-out')]:
+            self.add(f'export func known asapply - - 0 {lst(ci)} {lst(co)}', tag)
+        self.add('export func known asreturn - - 0 -', 'accept')
+        self.add('export func known asreturn - - 0 int', 'ret-many')
+        # the same mistakes with goom's debug mode on (every callback is wrapped, debug.go:41)
+        picks = [i for i, o in enumerate(self.ops) if o.split()[1] in ('func', 'method', 'iface', 'seqf') and ' ok ' not in o and 'fnval' not in o and 'small' not in o]
+        for _ in range(120 if self.tier == 'quick' else 600):
+            i = rng.choice(picks)
+            self.add('dbg ' + self.ops[i][4:], self.tags[i])
+
     def gen_random(self, n):
         """random signatures are impossible (targets are real functions); random LANES: re-draw the offending types/positions"""
         rng = self.rng
@@ -543,6 +638,7 @@ def generate(tier, rng):
     g.gen_iface()
     g.gen_seq()
     g.gen_retry()
+    g.gen_round5()
     g.gen_random(200 if tier == 'quick' else 12000)
     seen, ops, tags = set(), [], []
     for o, t in zip(g.ops, g.tags):
@@ -579,21 +675,42 @@ def oracle(op, tag, obs):
         return ('no observation (probe crashed on this call)', None)
     if obs in ('bad-op', 'zoo-mismatch') or obs.startswith('probe-panic'):
         return (f'probe could not perform the call: {obs}', None)
+    if op.startswith('c13 dbg '):
+        op = 'c13 ' + op[8:]                      # debug mode must change nothing: same oracle
     f = fields(obs)
     rejected = obs.startswith('rej:')
     form = op.split()[1]
+    # erro.CauseBy (traceable.go:26) must identify every Traceable node of the walk and nothing else
+    cby = f.get('cby', '-')
+    if cby != '-':
+        kn, x = cby.split(',')
+        k, n = kn.split('/')
+        if k != n or x != '0':
+            return (f'erro.CauseBy is wrong on the reported error: it recognises {k} of the {n} Traceable nodes of the chain {f.get("chain")} '
+                    f'and {"claims" if x != "0" else "rejects"} an unrelated error', 'causeby')
     if form in ('seqf', 'seqm', 'seqi', 'rtf', 'rtm', 'rti'):
+        if tag in ('returns-empty', 'when-none') and not rejected:
+            key = {'returns-empty': 'returns-empty-accepted', 'when-none': 'first-when-without-args'}[tag]
+            what = {'returns-empty': 'a first Returns() without any value on a target WITH results was accepted and the target patched (every call panics)',
+                    'when-none': 'a first When() without any condition on a target WITH parameters was accepted (it silently becomes the default)'}[tag]
+            return (what, key)
         return oracle_seq(op, tag, f, rejected)
+    if tag.startswith('fm:'):
+        if not rejected:
+            return (f'method value as target (`Func(obj.M)`, applied by name): the ill-fitting callback `{tag[3:]}` was accepted and installed '
+                    f'on the method (no signature check on the -fm route)', 'fm-unchecked')
+        tag = tag[3:]
     second = tag.startswith('second:')
     mistake = tag[7:] if second else tag
-    if tag == 'accept':
+    if tag in ('accept', 'accept?'):
         if rejected:
             return None      # a stricter-than-needed rejection is not a violation of C13; correspondence still sees it
     else:
         if not rejected:
             return (f'mistake `{mistake}` was accepted at configuration time', 'accepted:' + mistake.split(':')[0])
         want = None if second else WALK_SPEC.get(mistake)   # (*When).Return reports through a string panic (matcher.go:58)
-        if want and not f.get('walk', '').startswith(want):
+        ok_inner = mistake.startswith('iface-cb-count') and f.get('walk', '').startswith(('argsnotmatch', 'returnsnotmatch'))
+        if want and not f.get('walk', '').startswith(want) and not ok_inner:
             return (f'mistake `{mistake}`: the cause chain {f.get("chain")} walks to {f.get("walk")}, not to the typed cause {want}',
                     'cause:' + mistake.split(':')[0])
     if rejected:
@@ -614,6 +731,25 @@ def oracle(op, tag, obs):
     return None
 
 
+STRING_PANIC_MISTAKES = ('cb-count', 'cb-size', 'cb-nonfunc', 'ret-many', 'ret-size', 'ret-nil', 'ret-unassignable', 'when-many', 'when-size',
+                         'method-unknown', 'method-empty', 'symbol-unknown', 'origin-kind', 'target-nonfunc', 'iface-kind', 'iface-noargs')
+
+
+def deviation(op, tag, obs):
+    """Recorded deviations from the clause 'an error whose cause chain can be walked to its typed cause' on calls that ARE rejected
+    and leave nothing behind: (K2) the rejection is a panic with a string / a reflect panic, there is no error value at all;
+    (K3) the erro.Cause walk stops at *IllegalParam, one node before the typed cause."""
+    if not obs or not obs.startswith('rej:') or op.split()[1] in ('seqf', 'seqm', 'seqi', 'rtf', 'rtm', 'rti'):
+        return None
+    f = fields(obs)
+    t = tag[3:] if tag.startswith('fm:') else tag
+    if t.startswith('iface-cb-count') and f.get('walk') == 'illegalparam' and 'notmatch' in f.get('chain', ''):
+        return 'walk-stops-at-illegalparam'
+    if t.startswith(STRING_PANIC_MISTAKES) and f.get('chain') in ('str', 'reflect', 'runtime'):
+        return 'untyped-panic'
+    return None
+
+
 def oracle_seq(op, tag, f, rejected):
     """sequence / retry ops: the observation is about the last executed configuration call, relative to the state right before it"""
     steps = op.split(' ; ')
@@ -629,8 +765,8 @@ def oracle_seq(op, tag, f, rejected):
             return (f'probe ran {len(trail)} of {len(expect)} calls', None)
         for i, (e, got) in enumerate(zip(expect, trail)):
             if e == 'R' and not got.startswith('rej:'):
-                return (f'call {i} of the sequence (`{steps[i] if i < len(steps) else "?"}`) is a configuration mistake that was rejected the '
-                        f'first time but is accepted now: {f.get("trail")}', 'accepted:retry')
+                return (f'call {i} of the sequence (`{steps[i] if i < len(steps) else "?"}`) is a configuration mistake (or a retry of one) but was '
+                        f'accepted: {f.get("trail")}', 'accepted:retry')
         mistake = 'retry' if expect[-1] == 'R' else 'accept'
     else:
         mistake = tag[7:] if tag.startswith('second:') else tag
@@ -657,7 +793,7 @@ def oracle_seq(op, tag, f, rejected):
     elif tag.startswith('rt:') and last_kind in ('apply', 'return', 'returns') and beh in ('orig', 'nil') and 'R' in tag:
         return (f'the correct call `{steps[-1]}` after a rejected one was accepted but the target is not mocked (behaves {beh})', 'retry-not-applied')
     if 'meth' in f and f['meth'] != 'nil':
-        named = op.split()[2]
+        named = op.split()[2].split('@')[0]
         for part in f['meth'].split(','):
             n, b = part.split(':', 1)
             if n != named and b != 'unimpl':
@@ -692,28 +828,39 @@ def build_probe():
     return b
 
 
-def run_impl(binary, ops, tag):
-    """Runs the probe; a crash (SIGSEGV in patched code) kills the process: the crashing line is marked and the run resumes after it."""
+PROBE_ENV = {'GOOM_DEBUG': '', 'GOTRACEBACK': 'single', 'GODEBUG': '', 'GOGC': '', 'GOMAXPROCS': ''}   # goom's / the runtime's env knobs are neutralised
+
+
+def run_impl(binary, ops, tag, _solo=False):
+    """Runs the probe.  A crash (SIGSEGV in patched code) or a kill ends the process: the line it died on is re-run ONCE alone —
+    only a crash that reproduces is recorded as `crash`; a timeout / external kill that does not reproduce is not an observation
+    about goom — and the run resumes after it."""
     ops_path = os.path.join(C.BUILD, f'{tag}.ops')
     open(ops_path, 'w').write('\n'.join(ops) + '\n')
     outp = os.path.join(C.BUILD, f'{tag}.impl')
     impl = [None] * len(ops)
     start, crashes = 0, 0
     while start < len(ops):
-        rc, log = C.run_probe(binary, 'TestVerifC13', ops_path, outp, env={'VERIF_START': str(start)}, timeout=1500)
+        rc, log = C.run_probe(binary, 'TestVerifC13', ops_path, outp, env=dict(PROBE_ENV, VERIF_START=str(start)), timeout=3000)
         got = C.read_indexed(outp, len(ops))
         last = start - 1
         for i in range(start, len(ops)):
             if got[i] is not None:
                 impl[i] = got[i]
                 last = i
+        if any(g == 'probe-init-failed' for g in got if g):
+            raise C.Infra('C13 probe could not map its own .text section (needs a non-PIE ELF test binary):\n' + log[-800:])
         if rc == 0:
             break
         crashes += 1
         if crashes > 20:
-            raise C.Infra('C13 probe keeps crashing:\n' + log[-1500:])
+            raise C.Infra('C13 probe keeps dying:\n' + log[-1500:])
         if last + 1 < len(ops):
-            impl[last + 1] = 'crash'
+            if _solo:
+                impl[last + 1] = 'crash'
+            else:
+                again, _ = run_impl(binary, [ops[last + 1]], tag + '-retry', _solo=True)
+                impl[last + 1] = again[0] if again[0] is not None else 'crash'
         start = last + 2
     return impl, ops_path
 
@@ -743,8 +890,24 @@ def run(tier):
     by_key = {}
     for i, op, why, key in bad:
         by_key.setdefault(key, []).append((i, op, why))
-    binary = build_probe() if by_key else None
-    for key, items in list(by_key.items())[:5]:
+    known_keys = {kf.get('match', {}).get('key') for kf in C.known_findings('C13') if kf.get('status') == 'known'}
+    dev = {}
+    for i, op in enumerate(ops):
+        k = deviation(op, tags[i], impl[i])
+        if k:
+            dev.setdefault(k, []).append(i)
+    for k, idx in dev.items():
+        i = idx[0]
+        out.violation(f'{ops[i]}: rejected, nothing patched, but the report deviates from the cause-chain clause ({k}; {len(idx)} generated calls)',
+                      {'kind': 'impl-oracle', 'ops': [ops[i]], 'tags': [tags[i]], 'observed': impl[i], 'finding_key': k,
+                       'how': 'python3 check.py C13 --replay <this file>'}, key=k)
+    binary = build_probe() if any(k not in known_keys for k in by_key) else None
+    unknown = [k for k in by_key if k not in known_keys]
+    for key in [k for k in by_key if k in known_keys]:
+        i, op, why = by_key[key][0]
+        out.violation(f'{op}: {why} ({len(by_key[key])} generated calls of this kind)',
+                      {'kind': 'impl-oracle', 'ops': [op], 'tags': [tags[i]], 'observed': impl[i], 'why': why, 'finding_key': key}, key=key)
+    for key, items in [(k, by_key[k]) for k in unknown][:5]:
         # the replay must reproduce in a fresh process: ops of one run share a process (goom caches, earlier patches), so try the
         # self-contained sequence forms first and keep the first candidate that still fails when it is run alone
         cands = sorted(items, key=lambda it: 0 if it[1].split()[1].startswith(('seq', 'rt')) else 1)[:6]
@@ -762,6 +925,15 @@ def run(tier):
                        'finding_key': key, 'reproduces_alone': alone is not None,
                        'same_kind': [o for _, o, _ in items][:10],
                        'how': 'python3 check.py C13 --replay <this file>'}, key=key)
+    # machinery floors: a lane that silently ran nothing must not pass
+    forms = {}
+    for i, op in enumerate(ops):
+        if impl[i] and (impl[i].startswith('ok') or impl[i].startswith('rej:')):
+            fk = op.split()[2] if op.split()[1] == 'dbg' else op.split()[1]
+            forms[fk] = forms.get(fk, 0) + 1
+    for fk, floor in (('func', 500), ('method', 100), ('iface', 100), ('seqf', 300), ('seqm', 50), ('seqi', 50), ('rtf', 100), ('rtm', 30), ('rti', 50), ('fm', 30), ('export', 10), ('nonfunc', 20)):
+        if forms.get(fk, 0) < floor:
+            raise C.Infra(f'C13 lane `{fk}` produced only {forms.get(fk, 0)} observations (floor {floor}): the probe did not run it')
     # 2. correspondence
     diffs = []
     if model is None:
@@ -801,7 +973,8 @@ def run(tier):
         'theorems': proof['axioms'], 'proof_failures': proof['failed'],
         'evaluations': len(ops), 'distinct_nontrivial': nontrivial,
         'traces_validated_against_impl': len(ops) - len(diffs),
-        'oracle_failures': len(bad),
+        'oracle_failures': sum(len(v) for k, v in by_key.items() if k not in known_keys),
+        'known_finding_hits': {**{k: len(v) for k, v in by_key.items() if k in known_keys}, **{k: len(v) for k, v in dev.items()}},
         'rule': 'one evaluation = one configuration call (or When(..).Return(..) pair) on a fresh builder against a real target; every mistake class '
                 'x every target/method/interface-method signature x every position of the offending slot, plus accepted variants and random lanes; '
                 'non-trivial = the call was performed (accepted or rejected), distinct by (form, target, full observation)',
